@@ -88,11 +88,17 @@ def env():
 # ---------------------------------------------------------------------------
 
 def cycle_bound(steps, n_in, n_out, cfg):
-  """generous bound; measured worst case over 3 levels is < 1/4 of it (see extra_coverage)"""
+  """generous bound: the measured worst case over the three levels is < 1/10 of it (the evidence
+  reports max_cycles_over_bound)"""
   p = cfg["mem_stall_prob"]
   per_inst = (8 + 4 * cfg["mem_latency"]) / (1.0 - p)
-  return int(300 + (steps + 12) * per_inst
-             + n_in * (cfg["src_delay"] + 2) + n_out * (cfg["sink_delay"] + 2))
+  return 2 * int(300 + (steps + 12) * per_inst
+                 + n_in * (cfg["src_delay"] + 2) + n_out * (cfg["sink_delay"] + 2))
+
+
+# a live processor commits an instruction at least every few dozen cycles (delays <= 15, latency <= 5,
+# stall probability <= .6); no commit at all for this many cycles before the sink is done = stuck
+NO_COMMIT_WINDOW = 1500
 
 
 def run_level(level, sections, m2p, expect, cfg, bound):
@@ -117,9 +123,11 @@ def run_level(level, sections, m2p, expect, cfg, bound):
   n = 0
   try:
     th.sim_reset()
-    while not th.done() and n < bound:
+    idle = 0
+    while not th.done() and n < bound and idle < NO_COMMIT_WINDOW:
       th.sim_tick()
       n += 1
+      idle = 0 if th.commit_inst else idle + 1
     if th.done():
       # keep going for a while: an extra proc2mngr message must make the sink raise
       for _ in range(cfg["sink_delay"] + EXTRA_TICKS):
@@ -434,7 +442,7 @@ def proc_cases(draw, max_items=14, max_steps=260):
   data_base = draw(st.sampled_from(DATA_BASES))
   g = Gen(draw)
   first_inputs = g.prologue(data_base)
-  g.block(draw(st.integers(3, max_items)), 0, (R_B0, R_MASK))
+  g.block(draw(st.integers(4, max_items)), 0, (R_B0, R_MASK))
   g.epilogue()
   program = [T.fmt(x) for x in g.out]
   data = draw(st.lists(value32, min_size=DATA_WORDS, max_size=DATA_WORDS))
@@ -455,7 +463,7 @@ def proc_cases(draw, max_items=14, max_steps=260):
     "src_delay": draw(st.one_of(st.integers(0, 3), st.integers(0, 15))),
     "sink_delay": draw(st.one_of(st.integers(0, 3), st.integers(0, 15))),
     "mem_stall_prob": draw(st.sampled_from([0, 0.3, 0.5, 0.6])),
-    "mem_latency": draw(st.integers(1, 5)),
+    "mem_latency": draw(st.sampled_from([1, 2, 3, 4, 5])),
     "stall_seed": draw(st.integers(0, 2 ** 16)),
     "sched_seed": draw(st.integers(0, 2 ** 16)),
   }
@@ -601,7 +609,7 @@ def run_shard(ctx):
   small = ctx.tier == "quick"
 
   @seed(ctx.hseed(2))
-  @ctx.settings(ctx.n(400, 9000))
+  @ctx.settings(ctx.n(1280, 32000))
   @given(proc_cases(max_items=12 if small else 18, max_steps=220 if small else 400))
   def t_proc(case):
     if ctx.out_of_time(): return
